@@ -4,6 +4,9 @@
 #define MuscleWaitCondition_h
 
 #include "support/NotCopyable.h"
+#ifdef MUSCLE_VERIF_HOOKS
+# include "support/MuscleVerifHooks.h"
+#endif
 #include "util/TimeUtilityFunctions.h"  // for MUSCLE_TIME_NEVER
 
 #ifdef MUSCLE_SINGLE_THREAD_ONLY
@@ -187,6 +190,9 @@ private:
 
    status_t WaitAux(uint32 & retNotificationsCount) const
    {
+#ifdef MUSCLE_VERIF_HOOKS
+      if (GetMuscleVerifHooksRef()) (void) GetMuscleVerifHooksRef()->condWait(this, &_pendingNotificationsCount, 0);
+#endif
       status_t ret;
 #if !defined(MUSCLE_AVOID_CPLUSPLUS11)
       std::unique_lock<std::mutex> lockGuard(_conditionMutex);
@@ -238,6 +244,9 @@ private:
 
    status_t WaitUntilAux(uint64 wakeupTime, uint32 & retNotificationsCount) const
    {
+#ifdef MUSCLE_VERIF_HOOKS
+      if ((GetMuscleVerifHooksRef())&&(GetMuscleVerifHooksRef()->condWait(this, &_pendingNotificationsCount, 1) != 0)) return B_TIMED_OUT;
+#endif
       int64 timeDeltaMicros = (int64) (wakeupTime-GetRunTime64());  // how far in the future the wakeup-time is, in microseconds
       if (timeDeltaMicros <= 0) return B_TIMED_OUT;
 
@@ -310,6 +319,9 @@ private:
    status_t NotifyAux(uint32 increaseBy) const
    {
       if (increaseBy == 0) return B_NO_ERROR;  // no point waking everyone up for a no-op
+#ifdef MUSCLE_VERIF_HOOKS
+      if (GetMuscleVerifHooksRef()) GetMuscleVerifHooksRef()->condNotify(this);
+#endif
 
       status_t ret;
 
